@@ -66,7 +66,7 @@ func init() {
 		PID: "C01", PLevel: "exploration",
 		RuleText: "scenario = (engine v1|v2, 1-3 sources x 1-3 destinations, 0-2 scripted processors per attachment point incl. filter/error/split/cut-short/conditions/parallel workers, per-destination nack and latency scripts, DLQ window, stop/force-stop/StopAll/transient-failure at a PRNG-chosen event index) drawn from VERIF_SEED and the case index; every source ack observed is one obligation. A scenario is non-trivial when at least one judged ack needed >=2 confirming destinations, a DLQ confirmation or a filter; distinct = distinct (engine, topology shape, control kind, outcome classes present, destination completion-order class).",
 		Assume:   []string{"destination durability is the fake plugin's positive ack", "fake plugins log a confirmation before releasing it to the engine and log a source ack after receiving it, so logging skew can only hide, never fabricate, an early ack", "reference model of plugin result semantics (internal/pipe/model.go)"},
-		Quick:    320, Thorough: 12000,
+		Quick:    320, Thorough: 3200,
 		PointBias: []string{"funnel.worker.ack", "funnel.worker.nack", "funnel.multiack.ack", "funnel.multiack.nack", "connector.source.ack", "stream.sourceacker.ack", "stream.sourceacker.nack", "stream.fanout.ack"},
 		Anchors:   []string{"pkg/lifecycle/stream/source_acker.go", "pkg/lifecycle/stream/fanout.go", "pkg/lifecycle/stream/destination_acker.go", "pkg/lifecycle/stream/destination.go", "pkg/lifecycle/stream/message.go", "pkg/lifecycle/stream/dlq.go", "pkg/lifecycle-poc/funnel/worker.go", "pkg/lifecycle-poc/funnel/run_ledger.go", "pkg/lifecycle-poc/funnel/destination.go", "pkg/lifecycle-poc/funnel/batch.go", "pkg/lifecycle-poc/funnel/dlq.go", "pkg/connector/source.go"},
 		Gen:       gen, Judge: judge,
